@@ -16,8 +16,11 @@ Shapes == { <<"leni">> \o s : s \in Slices }
           \cup { <<"acc", "cat", "n5">> \o s \o <<i>> : s \in Slices, i \in Nums }
           \cup { <<"cast", "cat">> \o s \o <<"n5", "val">> : s \in Slices }
           \cup { <<"eq", "cat">> \o s \o <<"n5", "cat">> \o s2 \o <<"n5">> : s \in Slices, s2 \in { S(<<"val">>, "rng", a, b) : a, b \in Nums } }
+Narrow == { <<k>> \o s \o <<"rng", a, b>> \o tail : k \in {"app"}, s \in { S(<<"val">>, "rng", x, y) : x, y \in Nums } \cup { <<"rng", x, y>> : x, y \in Nums \cup {"n5"} },
+                                                    a \in Nums, b \in Nums, tail \in {<<>>} }
+Wrapped == { <<"leni">> \o n : n \in Narrow } \cup { <<"acc">> \o n \o <<i>> : n \in Narrow, i \in {"n0", "n1"} } \cup { <<"cast">> \o n \o <<"val">> : n \in Narrow } \cup Narrow
 VARIABLES ast
-Init == ast \in Shapes
+Init == ast \in Shapes \cup Wrapped
 Next == UNCHANGED ast
 Spec == Init /\ [][Next]_ast
 Emit == WellFormed(TreeOf(ast)) => PrintT(<<"REPLAY", ToJson([ast |-> ast, toks |-> Texts(Pr(TreeOf(ast)))])>>)
